@@ -6,7 +6,7 @@
 set -u
 prop=$1; i=$2; shift 2
 . /verif/env.sh
-src=/tmp/wt-$prop/_out
+src=/tmp/wt-$prop/${SEED_OUT:-_out}
 patch=$src/change$i.diff
 [ -f "$patch" ] || { echo "no $patch"; exit 2; }
 wt=/tmp/confirm-$prop-$i
@@ -45,7 +45,7 @@ cd /verif
 if [ $base_ok = yes ] && [ $build_ok = yes ] && [ $suite_ok = yes ] && [ $mut_fails = yes ]; then
   res=$(tools/trial.sh $patch $prop "$@" 2>&1)
   echo "$res" | grep -E "CAUGHT|MISSED|INCONCLUSIVE|suite"
-  out=/verif/seeded/$prop-$i
+  out=/verif/seeded/$prop-${SEED_TAG:-}$i
   mkdir -p $out
   cp $patch $out/patch.diff
   if [ $demo_kind = test ]; then cp $src/demo${i}_test.go $out/; else mkdir -p $out/demo && cp $src/demo$i/*.go $out/demo/; fi
